@@ -18,6 +18,7 @@ package main
 // stream derived from -seed, so the Lean model can be given the sampled values.
 
 import (
+	"sync"
 	"bytes"
 	crand "crypto/rand"
 	"encoding/binary"
@@ -339,6 +340,7 @@ func suiteOT(c *Ctx) {
 	otMultiply(c, st)
 	for i := 0; i < 3; i++ {
 		otMultiplySeq(c, st)
+		otMultiplyConc(c, st)
 	}
 	otAlterations(c, st)
 }
@@ -634,6 +636,42 @@ func otLayers(c *Ctx, st *otSetup) {
 				"V0": hex16s(V0), "V1": hex16s(V1), "VC": hex16s(rres.VerifDump())}},
 			J{"recomputed": true, "check": bytes.Equal(cbuf[nb:], bytes.Repeat([]byte{0xa5}, 64)), "choice": true, "err": ""})
 	}
+	// a batch of more than 2^16 transfers (the row counter hashed into every pad needs its upper bytes): the relation
+	// "the receiver's pad is the sender's pad for its choice bit" is judged by the model on the first rows and on the rows
+	// around 2^16 and at the end
+	{
+		nb := 8193 + c.Intn(24)
+		choices := choicePattern(c, "random", nb)
+		H := otCtx(c.Bytes(12))
+		var msg *ot.ExtendedOTReceiveMessage
+		var rres *ot.ExtendedOTReceiveResult
+		var sres *ot.ExtendedOTSendResult
+		var err error
+		pan := Guard(func() interface{} {
+			withRand(newLogReader(c.Rng.Int63()), func() {
+				msg, rres = ot.ExtendedOTReceive(H.Clone(), st.rs, choices)
+				sres, err = ot.ExtendedOTSend(H.Clone(), st.ss, 8*nb, msg)
+			})
+			return nil
+		})
+		rows := []J{}
+		obsErr := ""
+		if pj, isJ := pan.(J); isJ && pj["outcome"] != nil {
+			obsErr = fmt.Sprint(pj)
+		} else if err != nil {
+			obsErr = err.Error()
+		} else {
+			V0, V1 := sres.VerifDump()
+			VC := rres.VerifDump()
+			h0, h1, hc := hex16s(V0), hex16s(V1), hex16s(VC)
+			for i := 0; i < 8*nb && i < len(h0) && i < len(h1) && i < len(hc); i++ {
+				if i < 8 || (i >= 65528 && i < 65552) || i >= 8*nb-8 {
+					rows = append(rows, J{"i": i, "v0": h0[i], "v1": h1[i], "vc": hc[i]})
+				}
+			}
+		}
+		c.Emit("extbig", J{"batch": 8 * nb, "choices": hx(choices), "rows": rows, "obsErr": obsErr}, J{"choice": true})
+	}
 	// additive OT
 	lat := scalarLattice(c)
 	addSizes := []int{16, 5, 11, 84, 1, 4}
@@ -773,7 +811,82 @@ func otMultiplySeq(c *Ctx, st *otSetup) {
 			runs = append(runs, J{"alpha": otScHex(alpha), "beta": otScHex(beta), "shareS": otScHex(shareS), "shareR": otScHex(shareR)})
 		}
 	})
-	c.Emit("mulseq", J{"nonce": hx(nonce), "runs": runs, "uses": 3}, J{"sum": errStr == "", "err": errStr})
+	// the observation (the dumped shares of every use and the error, if any) is handed to the model, which judges it; the
+	// implementation's side of the comparison is the claim itself: an honest sequence never aborts and every use adds up
+	c.Emit("mulseq", J{"nonce": hx(nonce), "runs": runs, "uses": 3, "obsErr": errStr}, J{"sum": true, "err": ""})
+}
+
+// otMultiplyConc: multiplications on ONE setup running CONCURRENTLY (parallel signing sessions of one key), each with its
+// own nonce and context hashes: every one must succeed and add up. The random source is the system's (the interleaving is
+// not reproducible anyway); the model judges the dumped shares.
+func otMultiplyConc(c *Ctx, st *otSetup) {
+	lat := scalarLattice(c)
+	const workers, rounds = 8, 4
+	type one struct {
+		run J
+		err string
+	}
+	results := make([][]one, workers)
+	alphas := make([][2]curve.Scalar, workers*rounds)
+	for i := range alphas {
+		alphas[i] = [2]curve.Scalar{scFromBig(lat[c.Intn(len(lat))]), scFromBig(lat[c.Intn(len(lat))])}
+	}
+	nonces := make([][]byte, workers*rounds)
+	for i := range nonces {
+		nonces[i] = c.Bytes(12)
+	}
+	start := make(chan struct{})
+	var wg sync.WaitGroup
+	for w := 0; w < workers; w++ {
+		w := w
+		wg.Add(1)
+		go func() {
+			defer wg.Done()
+			defer func() {
+				if r := recover(); r != nil {
+					results[w] = append(results[w], one{err: fmt.Sprintf("worker %d: PANIC %v", w, r)})
+				}
+			}()
+			<-start
+			for k := 0; k < rounds; k++ {
+				i := w*rounds + k
+				alpha, beta := alphas[i][0], alphas[i][1]
+				sender := ot.NewMultiplySender(otCtx(nonces[i]), st.ss, otGroup.NewScalar().Set(alpha))
+				receiver, e := ot.NewMultiplyReceiver(otCtx(nonces[i]), st.rs, otGroup.NewScalar().Set(beta))
+				if e != nil {
+					results[w] = append(results[w], one{err: fmt.Sprintf("worker %d use %d: NewMultiplyReceiver: %v", w, k+1, e)})
+					return
+				}
+				ms, shareS, e := sender.Round1(receiver.Round1())
+				if e != nil {
+					results[w] = append(results[w], one{err: fmt.Sprintf("worker %d use %d: sender.Round1: %v", w, k+1, e)})
+					return
+				}
+				shareR, e := receiver.Round2(ms)
+				if e != nil {
+					results[w] = append(results[w], one{err: fmt.Sprintf("worker %d use %d: receiver.Round2: %v", w, k+1, e)})
+					return
+				}
+				results[w] = append(results[w], one{run: J{"alpha": otScHex(alpha), "beta": otScHex(beta), "shareS": otScHex(shareS), "shareR": otScHex(shareR)}})
+			}
+		}()
+	}
+	close(start)
+	wg.Wait()
+	runs := []J{}
+	errStr := ""
+	for _, rs := range results {
+		for _, r := range rs {
+			if r.err != "" {
+				if errStr == "" {
+					errStr = r.err
+				}
+			} else {
+				runs = append(runs, r.run)
+			}
+		}
+	}
+	c.Emit("mulseq", J{"concurrent": workers, "runs": runs, "uses": workers * rounds, "obsErr": errStr}, J{"sum": true, "err": ""})
 }
 
 func flipBit(b []byte, i int) {
